@@ -6,7 +6,8 @@ import torch.nn as nn
 
 from qv import fp, gen
 
-MODEL_KINDS = ["linear", "mlp_small", "mlp_big", "mlp_ln", "conv", "convnet", "mlp_nested", "scalar_head", "two_heads"]
+MODEL_KINDS = ["linear", "mlp_small", "mlp_big", "mlp_ln", "conv", "convnet", "mlp_nested", "scalar_head", "two_heads",
+               "attention"]
 
 
 class Block(nn.Module):
@@ -37,6 +38,25 @@ class TwoHeads(nn.Module):
         return torch.cat([p, v], dim=-1)
 
 
+class Attention(nn.Module):
+    """Single-head self-attention with a residual: products of two quantized activations (q @ k^T, probs @ v), a softmax
+    and transposes of quantized tensors sit between the quantized layers."""
+
+    def __init__(self, d=16):
+        super().__init__()
+        self.q, self.k, self.v, self.o = nn.Linear(d, d), nn.Linear(d, d), nn.Linear(d, d), nn.Linear(d, d)
+        self.d = d
+
+    def forward(self, x):
+        q, k, v = self.q(x), self.k(x), self.v(x)
+        scores = torch.matmul(q, k.transpose(-1, -2)) / (self.d ** 0.5)
+        probs = torch.softmax(scores, dim=-1)
+        ctx = torch.matmul(probs, v)
+        out = self.o(ctx)
+        out = out.dequantize() if hasattr(out, "qtype") else out
+        return out + x
+
+
 def build(kind, wd, rng=None):
     """Returns (model in eval mode and dtype wd, input shape). Weights come from torch's RNG (seeded per case)."""
     if kind == "linear":
@@ -58,6 +78,8 @@ def build(kind, wd, rng=None):
         m, shape = TwoHeads(), (3, 16)
     elif kind == "mlp_nested":
         m, shape = nn.Sequential(Block(16), nn.Sequential(Block(16), nn.Linear(16, 4))), (3, 16)
+    elif kind == "attention":
+        m, shape = Attention(16), (2, 5, 16)
     else:
         raise KeyError(kind)
     return m.to(wd).eval(), shape
@@ -79,7 +101,8 @@ def batch(rng, shape, wd, mag=None, layouts=True):
 def crash_hazard(kind, wd, wq, aq):
     """True when a Linear of this model falls into a known native crash class (C07-F33/F34)."""
     feats = {"linear": [24], "mlp_small": [16, 32], "mlp_big": [160, 256], "mlp_ln": [32, 32], "conv": [],
-             "convnet": [64], "mlp_nested": [16, 16, 16], "scalar_head": [16, 16], "two_heads": [16, 16, 16]}[kind]
+             "convnet": [64], "mlp_nested": [16, 16, 16], "scalar_head": [16, 16], "two_heads": [16, 16, 16],
+             "attention": [16, 16, 16, 16]}[kind]
     return any(gen.int8pack_crash_class(wd, wq, f, quantized_activations=aq is not None) for f in feats)
 
 
